@@ -504,6 +504,14 @@ func checkC06(sc *Scenario, st *Stats) *Violation {
 				}
 			} else {
 				addLab("pre-failed-other")
+				// whatever the failing Aspect consumed stays consumed: the frame cannot
+				// hand back more than the last Aspect execution left
+				if la != nil && att != nil && att.RetGasOK && att.Returned > la.GasOut {
+					return violf("pre-fail-gas", "%s: the pre join point failed (%.50s) after its Aspects left %d gas, but %d gas was handed back to the caller", where, p.Err, la.GasOut, att.Returned)
+				}
+				if la != nil && la.GasIn > la.GasOut {
+					observed = true
+				}
 			}
 			continue
 		}
